@@ -2,9 +2,12 @@
 C20, task 4 — the views of a legacy `DSD_Complex` instance against the views of the current `ComplexS` object with the
 same representation (`CplxSpec.answer`, i.e. `C03.qSpec`; the C03 / C08Obj theorems are stated on these).
 
-Each theorem names the caches it needs empty: that is the state after `__init__` and after `rotate_once()` (which
-resets `_pair_table`, `_loop_index`, `_lol_sequence`, `_exterior_domains`).  What `rotate_once()` does NOT reset
-(`_enclosed_domains`, `_strand_lengths`) gives two findings at the end.
+Each theorem names the caches it needs empty: that is the state after `rotate_once()` (which resets `_pair_table`,
+`_loop_index`, `_lol_sequence`, `_strand_lengths`, `_exterior_domains`, `_enclosed_domains`) and, except for
+`_strand_lengths` / `_lol_sequence` (filled by `self.size`, and describing the representation), after `__init__`.
+`rotate_once()` used NOT to reset `_enclosed_domains` and `_strand_lengths`: two findings of this claim, repaired in
+/repo c1d6792 - the story and the repaired behaviour are at the end (`Findings.repaired_enclosed`,
+`Findings.repaired_strand_length`).
 -/
 import DsdVerif.Lemmas.LegacyViews
 import DsdVerif.Lemmas.LegacyConstruct
@@ -71,6 +74,20 @@ theorem legacy_get_domain_eq (o : LObj) (h : o.lolSequence = none) (l : Locus) :
   rw [answer_eq]
   unfold LObj.getDomain
   simp only [h, truthy, Bool.false_eq_true, if_false, Option.getD_some, C03.qSpec, curObj]
+  cases ((makeStrandTableList "+" o.seq)[l.1]?).bind (fun s => s[l.2]?) <;> rfl
+
+/-- … also when `_lol_sequence` is filled with the strand table of the representation (the state after `__init__`) -/
+theorem legacy_get_domain_eq_filled (o : LObj) (h : o.lolSequence = some (makeStrandTableList "+" o.seq)) (l : Locus) :
+    ansStr (o.getDomain l).2 = (cur o).answer (.getDomain l) := by
+  rw [answer_eq]
+  unfold LObj.getDomain
+  have e : (if truthy o.lolSequence = true then o
+      else { o with lolSequence := some (makeStrandTableList "+" o.seq) }).lolSequence =
+      some (makeStrandTableList "+" o.seq) := by
+    split
+    · exact h
+    · rfl
+  simp only [e, Option.getD_some, C03.qSpec, curObj]
   cases ((makeStrandTableList "+" o.seq)[l.1]?).bind (fun s => s[l.2]?) <;> rfl
 
 /-- **`get_paired_loc(loc)`** for a locus without negative entries (a negative entry is an IndexError on both sides) -/
@@ -173,13 +190,15 @@ theorem legacy_rotate_pairtable_loc_default (o : LObj) (h1 : o.strandLengths = n
 
 /-! ### the instance `__init__` registers, and the instance after `rotate_once()` -/
 
-/-- after `__init__` (`registered …`) every view cache is empty and `_strand_lengths` describes the representation:
-    all the theorems above apply, and `size` / `strand_length` are right as well -/
+/-- after `__init__` (`registered …`) the caches of the structure views are empty, and `_lol_sequence` /
+    `_strand_lengths` (filled by the last `self.size` of `canonical_form`, after the last turn) describe the
+    representation: the theorems above apply (`legacy_get_domain_eq_filled` for `get_domain`), and `size` /
+    `strand_length` are right as well -/
 theorem legacy_views_registered (fresh : Nat) (nm : String) (seq : List String) (sst : List Char) (mc : Bool) (c : CKey)
     (rot : Nat) (hne : makeStrandTableList "+" seq ≠ []) (k : Nat) :
     let o := registered fresh nm seq sst mc c rot
-    o.pairTable = none ∧ o.loopIndex = none ∧ o.lolSequence = none ∧ o.exteriorDomains = none ∧
-    o.enclosedDomains = none ∧
+    o.pairTable = none ∧ o.loopIndex = none ∧ o.lolSequence = some (makeStrandTableList "+" seq) ∧
+    o.exteriorDomains = none ∧ o.enclosedDomains = none ∧
     Ans.nat o.size.2 = (cur o).answer .size ∧ ansNat (o.strandLength k).2 = (cur o).answer (.strandLength k) := by
   intro o
   refine ⟨rfl, rfl, rfl, rfl, rfl, ?_, ?_⟩
@@ -205,20 +224,26 @@ theorem legacy_views_registered (fresh : Nat) (nm : String) (seq : List String) 
     simp only [C03.qSpec, curObj, o, registered, List.getElem?_map]
     cases (makeStrandTableList "+" seq)[k]? <;> rfl
 
-/-- after a successful `rotate_once()` the four caches the views above depend on are empty again — so
-    `get_paired_loc`, `get_loop_index`, `get_domain`, `is_connected`, `exterior_domains`, `kernel_string` of the turned
-    instance are the views of the current object in the turned representation -/
+/-- after a successful `rotate_once()` ALL the caches the views above depend on are empty again (since the repair
+    c1d6792 `_strand_lengths` and `_enclosed_domains` too) — so `get_paired_loc`, `get_loop_index`, `get_domain`,
+    `is_connected`, `exterior_domains`, `enclosed_domains`, `strand_length`, `kernel_string` of the turned instance are
+    the views of the current object in the turned representation.  No hypothesis beyond the equal lengths is needed
+    (an empty strand table gives an IndexError on both sides). -/
 theorem legacy_views_after_rotate_once (o : LObj) (h : o.seq.length = o.sst.length) (nx : List String × List Char)
     (hrot : rotateOnce o.seq o.sst = .ok nx) :
     ∃ o', o.rotateOnce = (o', none) ∧ (o'.seq, o'.sst) = nx ∧
       o'.pairTable = none ∧ o'.loopIndex = none ∧ o'.lolSequence = none ∧ o'.exteriorDomains = none ∧
+      o'.strandLengths = none ∧ o'.enclosedDomains = none ∧
       (∀ l, ansOLoc (o'.getPairedLoc ((l.1 : Int), (l.2 : Int))).2 = (cur o').answer (.getPairedLoc l)) ∧
       (∀ l, ansNat (o'.getLoopIndex l).2 = (cur o').answer (.getLoopIndex l)) ∧
       (∀ l, ansStr (o'.getDomain l).2 = (cur o').answer (.getDomain l)) ∧
-      ansLocs o'.exteriorDomainsView.2 = (cur o').answer .exterior :=
-  ⟨rotated o nx, obj_rotateOnce o nx hrot h, rfl, rfl, rfl, rfl, rfl,
+      ansLocs o'.exteriorDomainsView.2 = (cur o').answer .exterior ∧
+      ansLocs o'.enclosedDomainsView.2 = (cur o').answer .enclosed ∧
+      (∀ k, ansNat (o'.strandLength k).2 = (cur o').answer (.strandLength k)) :=
+  ⟨rotated o nx, obj_rotateOnce o nx hrot h, rfl, rfl, rfl, rfl, rfl, rfl, rfl,
     fun l => legacy_get_paired_loc_eq _ rfl l, fun l => legacy_get_loop_index_eq _ rfl rfl l,
-    fun l => legacy_get_domain_eq _ rfl l, legacy_exterior_eq _ rfl rfl rfl⟩
+    fun l => legacy_get_domain_eq _ rfl l, legacy_exterior_eq _ rfl rfl rfl, legacy_enclosed_eq _ rfl rfl rfl rfl,
+    fun k => legacy_strand_length_eq _ rfl rfl k⟩
 
 /-! ### non-vacuity -/
 
@@ -273,21 +298,30 @@ theorem rotate_pairtable_loc_sign :
     (t.rotatePairtableLoc (0, 4) (some 1)).2 = .ok (1, 4) ∧ C07.rotLoc 3 1 (0, 4) = (2, 4) ∧
     C07.rotLoc 3 (-1) (0, 4) = (1, 4) := by decide
 
-/-- V3 (`enclosed_domains` after `rotate_once()`).  `rotate_once` resets `_exterior_domains` but not
-    `_enclosed_domains`: asked first after a turn, `enclosed_domains` still answers with the loci of the OLD strand order
-    (`(0, 1)`; the domain `x` is now at `(1, 1)`), until `exterior_domains` is evaluated.  The current `turns` setter
-    resets every cache. -/
-theorem stale_enclosed :
+/-- V3 (`enclosed_domains` after `rotate_once()`) — a DEFECT FOUND by this claim, REPAIRED in /repo c1d6792.
+    `rotate_once` used to reset `_exterior_domains` but not `_enclosed_domains`: asked first after a turn,
+    `enclosed_domains` still answered with the loci of the OLD strand order (`(0, 1)`; the domain `x` is now at `(1, 1)`),
+    until `exterior_domains` was evaluated (the theorem here was `stale_enclosed`).  The current `turns` setter resets
+    every cache.  Since the repair `rotate_once` resets `_enclosed_domains` as well: on the same example the cache is
+    empty after the turn and the legacy answer EQUALS the current API's. -/
+theorem repaired_enclosed :
     let z1 := (z.enclosedDomainsView.1).rotateOnce.1
-    z1.seq = ["b*", "a*", "+", "a", "x", "b"] ∧
-    z1.enclosedDomainsView.2 = .ok [(0, 1)] ∧ (cur z1).answer .enclosed = .locs [(1, 1)] ∧
+    z1.seq = ["b*", "a*", "+", "a", "x", "b"] ∧ z1.enclosedDomains = none ∧
+    z1.enclosedDomainsView.2 = .ok [(1, 1)] ∧ (cur z1).answer .enclosed = .locs [(1, 1)] ∧
+    ansLocs z1.enclosedDomainsView.2 = (cur z1).answer .enclosed ∧
     (z1.exteriorDomainsView.1).enclosedDomainsView.2 = .ok [(1, 1)] := by decide
 
-/-- V4 (`strand_length` after `rotate_once()`).  `_strand_lengths` is never reset: `strand_length(0)` keeps reporting
-    the length of the strand that WAS first (`size` is unaffected, a turn does not change the number of strands). -/
-theorem stale_strand_length :
+/-- V4 (`strand_length` after `rotate_once()`) — a DEFECT FOUND by this claim, REPAIRED in /repo c1d6792.
+    `_strand_lengths` was never reset: `strand_length(0)` kept reporting the length of the strand that WAS first (3; the
+    first strand is now `b* a*`, of length 2), while `size` was unaffected, a turn does not change the number of strands
+    (the theorem here was `stale_strand_length`).  Since the repair `rotate_once` resets `_strand_lengths` as well: on
+    the same example the cache is empty after the turn and the legacy answers EQUAL the current API's. -/
+theorem repaired_strand_length :
     let z1 := z.rotateOnce.1
-    (z1.strandLength 0).2 = .ok 3 ∧ (cur z1).answer (.strandLength 0) = .nat 2 ∧
+    z1.strandLengths = none ∧
+    (z1.strandLength 0).2 = .ok 2 ∧ (cur z1).answer (.strandLength 0) = .nat 2 ∧
+    ansNat (z1.strandLength 0).2 = (cur z1).answer (.strandLength 0) ∧
+    ansNat (z1.strandLength 1).2 = (cur z1).answer (.strandLength 1) ∧
     Ans.nat z1.size.2 = (cur z1).answer .size := by decide
 
 end Findings
